@@ -151,7 +151,10 @@ def build(model):
     mods = {}
     shared = types.ModuleType(f"c17_shared_{uid}")
     sys.modules[shared.__name__] = shared
-    src = "import enum\n" + "".join(f"class {e}(enum.Enum):\n    A = 1\n    B = 2\n" for e in model["enums"])
+    # the first enum is a plain Enum, the second mixes a builtin in (IntEnum / (str, Enum) alternately): still enums, not builtins
+    bases = ["enum.Enum", "enum.IntEnum" if model["uid"] % 2 else "str, enum.Enum"]
+    vals = [("1", "2"), ("1", "2") if model["uid"] % 2 else ("'a'", "'b'")]
+    src = "import enum\n" + "".join(f"class {e}({bases[i % 2]}):\n    A = {vals[i % 2][0]}\n    B = {vals[i % 2][1]}\n" for i, e in enumerate(model["enums"]))
     exec(compile(src, shared.__name__, "exec"), shared.__dict__)
     out = {}
     for m in (0, 1):
